@@ -245,8 +245,20 @@ type production struct {
 	Kind    string // "And" | "OrdChoice"
 	Builder *types.Func
 	Atoms   []string
+	Opt     []bool // Atoms[i] belongs to an optional or repeated sub-production
 	Pos     token.Pos
 	AllAtom bool // every other argument is an Atom
+}
+
+// mandatory lists the atoms outside optional / repeated parts.
+func (pr production) mandatory() []string {
+	var out []string
+	for i, a := range pr.Atoms {
+		if i >= len(pr.Opt) || !pr.Opt[i] {
+			out = append(out, a)
+		}
+	}
+	return out
 }
 
 // productionsOf lists the productions of package p (non-test files), in source order.
@@ -313,28 +325,44 @@ func productionsOf(p *packages.Package) []production {
 					return true
 				}
 				pr := production{Kind: kind, Builder: bf, Pos: call.Pos(), AllAtom: true}
-				for _, a := range call.Args[1:] {
-					if ac, ok := a.(*ast.CallExpr); ok && isParsecCall(info, ac, "Atom") && len(ac.Args) >= 1 {
-						pr.Atoms = append(pr.Atoms, stringLit(info, ac.Args[0]))
-						continue
+				// atoms in order; sub-productions of repetition / option kind (inline or
+				// through a local variable) are spliced in place and marked optional
+				var walk func(e ast.Expr, opt bool, depth int)
+				walk = func(e ast.Expr, opt bool, depth int) {
+					if depth > 6 {
+						return
 					}
-					pr.AllAtom = false
-					// an inline repetition, or &x / x: a local sub-production of repetition kind
-					if dc, ok := a.(*ast.CallExpr); ok && (isParsecCall(info, dc, "Kleene") || isParsecCall(info, dc, "Many") || isParsecCall(info, dc, "Maybe")) {
-						pr.Atoms = append(pr.Atoms, atomsOf(info, dc)...)
-						continue
-					}
-					e := a
 					if u, ok := e.(*ast.UnaryExpr); ok && u.Op == token.AND {
 						e = u.X
 					}
-					if id, ok := e.(*ast.Ident); ok {
-						for _, def := range defs[info.ObjectOf(id)] {
+					switch x := e.(type) {
+					case *ast.CallExpr:
+						switch {
+						case isParsecCall(info, x, "Atom") && len(x.Args) >= 1:
+							pr.Atoms = append(pr.Atoms, stringLit(info, x.Args[0]))
+							pr.Opt = append(pr.Opt, opt)
+						case isParsecCall(info, x, "Kleene") || isParsecCall(info, x, "Many") || isParsecCall(info, x, "Maybe"):
+							for _, a := range x.Args[1:] {
+								walk(a, true, depth+1)
+							}
+						case isParsecCall(info, x, "And") && depth > 0:
+							for _, a := range x.Args[1:] {
+								walk(a, opt, depth+1)
+							}
+						}
+					case *ast.Ident:
+						for _, def := range defs[info.ObjectOf(x)] {
 							if dc, ok := def.(*ast.CallExpr); ok && (isParsecCall(info, dc, "Kleene") || isParsecCall(info, dc, "Many") || isParsecCall(info, dc, "Maybe")) {
-								pr.Atoms = append(pr.Atoms, atomsOf(info, dc)...)
+								walk(dc, opt, depth+1)
 							}
 						}
 					}
+				}
+				for _, a := range call.Args[1:] {
+					if ac, ok := a.(*ast.CallExpr); !ok || !isParsecCall(info, ac, "Atom") {
+						pr.AllAtom = false
+					}
+					walk(a, false, 0)
 				}
 				out = append(out, pr)
 				return true
@@ -498,4 +526,144 @@ func dispatchTable(p *packages.Package, root *ast.FuncDecl) []dispatchEntry {
 func isConstExpr(info *types.Info, e ast.Expr) bool {
 	tv, ok := info.Types[e]
 	return ok && tv.Value != nil
+}
+
+// ---------------------------------------------------------------- backtracking
+
+// choiceAmbiguity: two alternatives of one ordered choice start with the same
+// elements, a non-terminal among them: the shared prefix is parsed once per
+// alternative, and again at every nesting level (exponential time).
+type choiceAmbiguity struct {
+	A, B   string // the two alternatives
+	Prefix []string
+	Pos    token.Pos
+}
+
+// choiceAmbiguities analyses every parsec.OrdChoice of package p.
+func choiceAmbiguities(p *packages.Package) (out []choiceAmbiguity, nChoices int) {
+	if p == nil {
+		return nil, 0
+	}
+	info := p.TypesInfo
+	// sequence (parsec.And call) returned by a package-level production function
+	returnedSeq := func(fo *types.Func) *ast.CallExpr {
+		fd := funcDeclOf(p, fo)
+		if fd == nil || fd.Body == nil {
+			return nil
+		}
+		var seq *ast.CallExpr
+		ast.Inspect(fd.Body, func(n ast.Node) bool {
+			if rs, ok := n.(*ast.ReturnStmt); ok && len(rs.Results) == 1 {
+				if call, ok := rs.Results[0].(*ast.CallExpr); ok && isParsecCall(info, call, "And") {
+					seq = call
+				}
+			}
+			return true
+		})
+		return seq
+	}
+	classify := func(e ast.Expr) string {
+		if call, ok := e.(*ast.CallExpr); ok {
+			if (isParsecCall(info, call, "Atom") || isParsecCall(info, call, "AtomExact")) && len(call.Args) >= 1 {
+				return "atom:" + stringLit(info, call.Args[0])
+			}
+			if isParsecCall(info, call, "Token") || isParsecCall(info, call, "TokenExact") || isParsecCall(info, call, "Ident") {
+				return "tok:" + types.ExprString(e)
+			}
+		}
+		return "nt:" + types.ExprString(e)
+	}
+	for _, f := range p.Syntax {
+		if strings.HasSuffix(p.Fset.Position(f.Pos()).Filename, "_test.go") {
+			continue
+		}
+		for _, d := range f.Decls {
+			fd, ok := d.(*ast.FuncDecl)
+			if !ok || fd.Body == nil {
+				continue
+			}
+			defs := map[types.Object]ast.Expr{}
+			ast.Inspect(fd.Body, func(n ast.Node) bool {
+				switch x := n.(type) {
+				case *ast.AssignStmt:
+					if len(x.Lhs) == len(x.Rhs) {
+						for i, l := range x.Lhs {
+							if id, ok := l.(*ast.Ident); ok {
+								if o := info.ObjectOf(id); o != nil {
+									defs[o] = x.Rhs[i]
+								}
+							}
+						}
+					}
+				case *ast.ValueSpec:
+					for i, nm := range x.Names {
+						if i < len(x.Values) {
+							if o := info.ObjectOf(nm); o != nil {
+								defs[o] = x.Values[i]
+							}
+						}
+					}
+				}
+				return true
+			})
+			ast.Inspect(fd.Body, func(n ast.Node) bool {
+				call, ok := n.(*ast.CallExpr)
+				if !ok || !isParsecCall(info, call, "OrdChoice") || len(call.Args) < 3 {
+					return true
+				}
+				nChoices++
+				type alt struct {
+					name string
+					seq  []string
+				}
+				var alts []alt
+				for _, a := range call.Args[1:] {
+					e := a
+					if u, ok := e.(*ast.UnaryExpr); ok && u.Op == token.AND {
+						e = u.X
+					}
+					var seq *ast.CallExpr
+					switch x := e.(type) {
+					case *ast.Ident:
+						if def, ok := defs[info.ObjectOf(x)].(*ast.CallExpr); ok && isParsecCall(info, def, "And") {
+							seq = def
+						}
+					case *ast.CallExpr:
+						if isParsecCall(info, x, "And") {
+							seq = x
+						} else if id, ok := x.Fun.(*ast.Ident); ok {
+							if fo, ok := info.Uses[id].(*types.Func); ok {
+								seq = returnedSeq(fo)
+							}
+						}
+					}
+					if seq == nil || len(seq.Args) < 2 {
+						continue
+					}
+					al := alt{name: types.ExprString(e)}
+					for _, el := range seq.Args[1:] {
+						al.seq = append(al.seq, classify(el))
+					}
+					alts = append(alts, al)
+				}
+				for i := 0; i < len(alts); i++ {
+					for j := i + 1; j < len(alts); j++ {
+						var prefix []string
+						hasNT := false
+						for k := 0; k < len(alts[i].seq) && k < len(alts[j].seq) && alts[i].seq[k] == alts[j].seq[k]; k++ {
+							prefix = append(prefix, alts[i].seq[k])
+							if strings.HasPrefix(alts[i].seq[k], "nt:") {
+								hasNT = true
+							}
+						}
+						if hasNT {
+							out = append(out, choiceAmbiguity{alts[i].name, alts[j].name, prefix, call.Pos()})
+						}
+					}
+				}
+				return true
+			})
+		}
+	}
+	return out, nChoices
 }
